@@ -50,7 +50,11 @@ func (c *configQuoteAwarePostProcessors) PostProcessProperties(properties []*com
 			//split expression key and default value
 			spExp := strings.SplitN(exp, ":", 2)
 			exp = spExp[0]
-			expVal := c.Configure.Get(exp)
+			//an empty key names nothing (the binder answers the whole configuration for the empty path)
+			var expVal any
+			if exp != "" {
+				expVal = c.Configure.Get(exp)
+			}
 			useDefaultValue := false
 			if expVal == nil {
 				useDefaultValue = true
